@@ -1,5 +1,7 @@
 /-
-Model of package `cty/json`: `marshal` (marshal.go), `unmarshal*` (unmarshal.go),
+Model of package `cty/json`: `marshal` (marshal.go), `unmarshal*` (unmarshal.go), the
+public `Unmarshal` (value.go: `unmarshalTop`, which drops the optional-attribute annotations
+of the requested type before decoding; `unmarshalDynamic` calls it for the wrapped value),
 `impliedType` (type_implied.go), `SimpleJSONValue` (simple.go), at token-tree level.
 
 TRUSTED BASE / ORACLES (nothing here is an axiom; each is a parameter or an input)
@@ -462,14 +464,23 @@ def unmarshalAttrs (env : JEnv) : List String → List Json → List String → 
         | r => r
       | r => errOf r
   | _, _, _, _, _ => .ok []
-/-- `Unmarshal(valBody, t)` for the last "value" member -/
+/-- `Unmarshal(valBody, t)` for the last "value" member: the PUBLIC entry point (value.go), so
+the decoded type descriptor loses its optional-attribute annotations first
+(`t.WithoutOptionalAttributesDeep()`, /repo afdc0a2; `unmarshalTop` below is the same function) -/
 def dynValue (env : JEnv) : List String → List Json → Ty → Option (Res Value)
   | k :: ks, j :: js, t =>
     match dynValue env ks js t with
     | some r => some r
-    | none => if k = "value" then some (unmarshal env j t) else none
+    | none => if k = "value" then some (unmarshal env j t.stripOpt) else none
   | _, _, _ => none
 end
+
+/-- `Unmarshal(buf, t)` (value.go): optional-attribute annotations belong to type
+constraints, the type of a value never carries them — they are dropped from the requested
+type before decoding (/repo afdc0a2), so a null / an empty collection decoded against an
+annotated constraint gets the constraint type WITHOUT the annotations -/
+def unmarshalTop (env : JEnv) (j : Json) (t : Ty) : Res Value :=
+  unmarshal env j t.stripOpt
 
 /-! ## type_implied.go -/
 
@@ -542,7 +553,7 @@ def simpleMarshal (env : JEnv) (v : Value) : Res Json := marshalTop env v v.ty
 /-- `SimpleJSONValue.UnmarshalJSON` -/
 def simpleUnmarshal (env : JEnv) (j : Json) : Res Value :=
   match impliedType env j with
-  | .ok t => unmarshal env j t
+  | .ok t => unmarshalTop env j t
   | r => errOf r
 
 end JsonVal
